@@ -97,6 +97,21 @@ func (in *inst) build(chain []layer, i int) error {
 			a = net.JoinHostPort(h, fmt.Sprint(in.port()))
 		}
 		return &net.AddrError{Err: []string{"missing port in address", "too many colons in address", "mismatched local address type"}[in.rng.Intn(3)], Addr: a}
+	case "ErrClosed":
+		return net.ErrClosed
+	case "Deadline":
+		return os.ErrDeadlineExceeded
+	case "DnsTemp", "DnsNoFlag", "DnsTempTimeout":
+		// what the resolver produces when the exchange with the server fails at the socket level
+		name := in.host(n, "name")
+		srv := in.ip(n, "server")
+		c := in.ip(n, "cause")
+		e := &net.DNSError{Name: name, Server: net.JoinHostPort(srv.String(), "53"),
+			Err: fmt.Sprintf("read udp %s->%s: %s", net.JoinHostPort(c.String(), fmt.Sprint(in.port())), net.JoinHostPort(srv.String(), "53"),
+				[]string{"connection refused", "network is unreachable", "no route to host"}[in.rng.Intn(3)])}
+		e.IsTemporary = y.K != "DnsNoFlag"
+		e.IsTimeout = y.K == "DnsTempTimeout"
+		return e
 	case "Dns":
 		name := in.host(n, "name")
 		srv := in.ip(n, "server")
